@@ -4,9 +4,12 @@
        d  (directory entry / missing parent),  d/f,  g,  h   (+ e: target of a symlinked d, k: old hard link of g)
    g as a symlink points to d: over an existing directory g it is tolerated when d is a directory (the
    CannotOverwrite retry of merge_contents) and refused otherwise; h is a hard-link mate of d/f that is
-   iterated AFTER g, so state carried across the retry (merged inodes) matters. *)
+   iterated AFTER g, so state carried across the retry (merged inodes) matters.
+   Ownership: the pre-existing d / e are set-gid directories of a foreign group and the cset's d is set-gid
+   too, while d/f is recorded as 0:0 (the merging process' own ids): a created object inherits the group of
+   a set-gid parent, so the recorded owner has to be set explicitly. *)
 EXTENDS Merge
-CONSTANTS NChunks, ODKinds, OFKinds, OGKinds, CDKinds, CFKinds, CGKinds, CHKinds   \* kind universes: see KINDS in drivers/c18_merge.py
+CONSTANTS NChunks, ODKinds, OFKinds, OGKinds, CDKinds, CFKinds, CGKinds, CHKinds, MTKinds   \* kind universes: see KINDS in drivers/c18_merge.py
 
 D == <<"d">>
 F == <<"d", "f">>
@@ -16,10 +19,13 @@ K == <<"k">>
 H == <<"h">>
 
 
-Sel == {s \in [od : ODKinds, of : OFKinds, og : OGKinds, cd : CDKinds, cf : CFKinds, cg : CGKinds, ch : CHKinds] :
+Sel == {s \in [od : ODKinds, of : OFKinds, og : OGKinds, cd : CDKinds, cf : CFKinds, cg : CGKinds, ch : CHKinds, mt : MTKinds] :
           /\ (s.of # "absent" => s.od \in {"dir", "symdir"})
           /\ (s.cg = "mate" => s.cf = "file")
           /\ (s.ch = "mate" => s.cf = "file")
+          \* mt = "d": the directory d (or what the symlink d points to) is a mount point, so d/f cannot be
+          \* hard-linked to its mates g and h (which still can be linked to each other)
+          /\ (s.mt = "d" => s.od \in {"dir", "symdir"} /\ s.cf = "file" /\ (s.cg = "mate" \/ s.ch = "mate"))
           /\ (s.cd = "none" /\ s.cf = "none" => s.cg # "none")}
 
 O(path, type, content, target, linkto, mode, uid, gid, mtime) ==
@@ -29,9 +35,9 @@ O(path, type, content, target, linkto, mode, uid, gid, mtime) ==
 \* the pre-existing root as a list of objects (parents first)
 OldSpec(s) ==
   (CASE s.od = "absent"   -> <<>>
-     [] s.od = "dir"      -> <<O(D, "dir", "", "", <<>>, 448, 7, 7, 70)>>
+     [] s.od = "dir"      -> <<O(D, "dir", "", "", <<>>, 1512, 7, 7, 70)>>
      [] s.od = "file"     -> <<O(D, "file", "oldD", "", <<>>, 420, 7, 7, 70)>>
-     [] s.od = "symdir"   -> <<O(E, "dir", "", "", <<>>, 448, 7, 7, 70), O(D, "sym", "", "e", <<>>, 511, 7, 7, 70)>>
+     [] s.od = "symdir"   -> <<O(E, "dir", "", "", <<>>, 1512, 7, 7, 70), O(D, "sym", "", "e", <<>>, 511, 7, 7, 70)>>
      [] s.od = "dangling" -> <<O(D, "sym", "", "gone", <<>>, 511, 7, 7, 70)>>)
   \o (LET base == IF s.od = "symdir" THEN E ELSE D IN
       CASE s.of = "absent" -> <<>>
@@ -50,16 +56,16 @@ Ent(path, type, content, target, grp, mode, uid, gid, mtime) ==
    uid |-> uid, gid |-> gid, mtime |-> mtime, target |-> IF type = "sym" THEN target ELSE "-", grp |-> grp]
 
 CsetSpec(s) ==
-  (IF s.cd = "dir" THEN <<Ent(D, "dir", "-", "", 0, 493, 1, 2, 10)>> ELSE <<>>)
+  (IF s.cd = "dir" THEN <<Ent(D, "dir", "-", "", 0, 1517, 1, 2, 10)>> ELSE <<>>)
   \o (CASE s.cf = "none" -> <<>>
-        [] s.cf = "file" -> <<Ent(F, "file", "newF", "", IF s.cg = "mate" \/ s.ch = "mate" THEN 1 ELSE 0, 416, 3, 4, 20)>>
+        [] s.cf = "file" -> <<Ent(F, "file", "newF", "", IF s.cg = "mate" \/ s.ch = "mate" THEN 1 ELSE 0, 416, 0, 0, 20)>>
         [] s.cf = "sym"  -> <<Ent(F, "sym", "-", "newT", 0, 511, 3, 4, 20)>>
         [] s.cf = "fifo" -> <<Ent(F, "fifo", "-", "", 0, 384, 3, 4, 20)>>)
   \o (CASE s.cg = "none" -> <<>>
         [] s.cg = "file" -> <<Ent(G, "file", "newG", "", 0, 365, 5, 6, 30)>>
         [] s.cg = "sym"  -> <<Ent(G, "sym", "-", "d", 0, 511, 5, 6, 30)>>
-        [] s.cg = "mate" -> <<Ent(G, "file", "newF", "", 1, 416, 3, 4, 20)>>)
-  \o (IF s.ch = "mate" THEN <<Ent(H, "file", "newF", "", 1, 416, 3, 4, 20)>> ELSE <<>>)
+        [] s.cg = "mate" -> <<Ent(G, "file", "newF", "", 1, 416, 0, 0, 20)>>)
+  \o (IF s.ch = "mate" THEN <<Ent(H, "file", "newF", "", 1, 416, 0, 0, 20)>> ELSE <<>>)
 
 AllLinks == {[t |-> "e", abs |-> FALSE, ext |-> FALSE, comps |-> <<"e">>],
              [t |-> "d", abs |-> FALSE, ext |-> FALSE, comps |-> <<"d">>],
@@ -82,6 +88,8 @@ RECURSIVE FixDirTimes(_, _)
 FixDirTimes(s, objs) ==
   IF objs = <<>> THEN s
   ELSE FixDirTimes(IF Head(objs).type = "dir" THEN Utime(s, Head(objs).path, Head(objs).mtime).s ELSE s, Tail(objs))
-OldFs(sel) == FixDirTimes(BuildOld([names |-> {}, inodes |-> <<>>, handles |-> {}, links |-> AllLinks], OldSpec(sel)), OldSpec(sel))
+MountsOf(sel) == IF sel.mt = "d" THEN {IF sel.od = "symdir" THEN E ELSE D} ELSE {}
+OldFs(sel) == FixDirTimes(BuildOld([names |-> {}, inodes |-> <<>>, handles |-> {}, links |-> AllLinks, mounts |-> MountsOf(sel)],
+                                 OldSpec(sel)), OldSpec(sel))
 
 =============================================================================
